@@ -170,6 +170,60 @@ bool set_all(PhQ::Dyad<X>& v, int variant, const X* n, const char** name) {
     return v.Set_xx_xy_xz_yx_yy_yz_zx_zy_zz(std::array<X, 9>{n[0], n[1], n[2], n[3], n[4], n[5], n[6], n[7], n[8]}), *name = "Set_xx_xy_xz_yx_yy_yz_zx_zy_zz(array)", true;
   return false;
 }
+// Every accessor that reads ONE number of a stored vector/tensor: {name, slot it must read, call}.
+template <class V, class X>
+struct Reader {
+  const char* name;
+  int slot;
+  X (*call)(const V&);
+};
+#define R_(NAME, SLOT, EXPR) {NAME, SLOT, [](const V& v) -> X { return EXPR; }}
+template <class X>
+std::vector<Reader<X, X>> readers(const X*) {
+  using V = X;
+  return {R_("value", 0, v)};
+}
+template <class X>
+std::vector<Reader<PhQ::PlanarVector<X>, X>> readers(const PhQ::PlanarVector<X>*) {
+  using V = PhQ::PlanarVector<X>;
+  return {R_("x()", 0, v.x()), R_("y()", 1, v.y()), R_("x_y()[0]", 0, v.x_y()[0]), R_("x_y()[1]", 1, v.x_y()[1])};
+}
+template <class X>
+std::vector<Reader<PhQ::Vector<X>, X>> readers(const PhQ::Vector<X>*) {
+  using V = PhQ::Vector<X>;
+  return {R_("x()", 0, v.x()), R_("y()", 1, v.y()), R_("z()", 2, v.z()), R_("x_y_z()[0]", 0, v.x_y_z()[0]), R_("x_y_z()[1]", 1, v.x_y_z()[1]), R_("x_y_z()[2]", 2, v.x_y_z()[2])};
+}
+template <class X>
+std::vector<Reader<PhQ::SymmetricDyad<X>, X>> readers(const PhQ::SymmetricDyad<X>*) {
+  using V = PhQ::SymmetricDyad<X>;
+  return {R_("xx()", 0, v.xx()), R_("xy()", 1, v.xy()), R_("xz()", 2, v.xz()), R_("yx()", 1, v.yx()), R_("yy()", 3, v.yy()), R_("yz()", 4, v.yz()),
+          R_("zx()", 2, v.zx()), R_("zy()", 4, v.zy()), R_("zz()", 5, v.zz()),
+          R_("xx_xy_xz_yy_yz_zz()[0]", 0, v.xx_xy_xz_yy_yz_zz()[0]), R_("xx_xy_xz_yy_yz_zz()[1]", 1, v.xx_xy_xz_yy_yz_zz()[1]), R_("xx_xy_xz_yy_yz_zz()[2]", 2, v.xx_xy_xz_yy_yz_zz()[2]),
+          R_("xx_xy_xz_yy_yz_zz()[3]", 3, v.xx_xy_xz_yy_yz_zz()[3]), R_("xx_xy_xz_yy_yz_zz()[4]", 4, v.xx_xy_xz_yy_yz_zz()[4]), R_("xx_xy_xz_yy_yz_zz()[5]", 5, v.xx_xy_xz_yy_yz_zz()[5])};
+}
+template <class X>
+std::vector<Reader<PhQ::Dyad<X>, X>> readers(const PhQ::Dyad<X>*) {
+  using V = PhQ::Dyad<X>;
+  return {R_("xx()", 0, v.xx()), R_("xy()", 1, v.xy()), R_("xz()", 2, v.xz()), R_("yx()", 3, v.yx()), R_("yy()", 4, v.yy()), R_("yz()", 5, v.yz()),
+          R_("zx()", 6, v.zx()), R_("zy()", 7, v.zy()), R_("zz()", 8, v.zz()),
+          R_("array[0]", 0, v.xx_xy_xz_yx_yy_yz_zx_zy_zz()[0]), R_("array[1]", 1, v.xx_xy_xz_yx_yy_yz_zx_zy_zz()[1]), R_("array[2]", 2, v.xx_xy_xz_yx_yy_yz_zx_zy_zz()[2]),
+          R_("array[3]", 3, v.xx_xy_xz_yx_yy_yz_zx_zy_zz()[3]), R_("array[4]", 4, v.xx_xy_xz_yx_yy_yz_zx_zy_zz()[4]), R_("array[5]", 5, v.xx_xy_xz_yx_yy_yz_zx_zy_zz()[5]),
+          R_("array[6]", 6, v.xx_xy_xz_yx_yy_yz_zx_zy_zz()[6]), R_("array[7]", 7, v.xx_xy_xz_yx_yy_yz_zx_zy_zz()[7]), R_("array[8]", 8, v.xx_xy_xz_yx_yy_yz_zx_zy_zz()[8])};
+}
+// The typed component accessors of a quantity (q.x() -> scalar quantity, q.yz() -> scalar quantity), probed by name.
+#define TYPED_(NAME)                                                                                                   \
+  template <class Q, class = void>                                                                                     \
+  struct Has_##NAME : std::false_type {};                                                                              \
+  template <class Q>                                                                                                   \
+  struct Has_##NAME<Q, std::void_t<decltype(std::declval<const Q&>().NAME().Value())>> : std::true_type {};            \
+  template <class Q, class T>                                                                                          \
+  bool typed_##NAME(const Q& q, T want) {                                                                              \
+    if constexpr (Has_##NAME<Q>::value) {                                                                              \
+      if constexpr (std::is_same_v<std::decay_t<decltype(q.NAME().Value())>, T>) return vf::same_bits(q.NAME().Value(), want); \
+    }                                                                                                                  \
+    return true;                                                                                                       \
+  }
+TYPED_(x) TYPED_(y) TYPED_(z) TYPED_(xx) TYPED_(xy) TYPED_(xz) TYPED_(yx) TYPED_(yy) TYPED_(yz) TYPED_(zx) TYPED_(zy) TYPED_(zz)
 template <class Q, class = void>
 struct HasSetValue : std::false_type {};
 template <class Q>
@@ -201,6 +255,36 @@ struct Explorer {
       for (int i = 0; i < N; i++) ok = ok && vf::same_bits(m[i], r[i]);
     }
     for (int i = 0; i < N; i++) ok = ok && vf::same_bits(c[i], r[i]);
+    // ... through every one-number accessor of the stored value, and through the quantity's typed component accessors
+    const char* bad_reader = nullptr;
+    if constexpr (vf::HasUnit<Q>::value || HasMutableValue<Q>::value) {
+      static const auto rs = readers((const V*)nullptr);
+      const V& v = q.Value();
+      for (const auto& rd : rs)
+        if (!vf::same_bits(rd.call(v), r[rd.slot]) && !bad_reader) bad_reader = rd.name;
+      if constexpr (N == 2 || N == 3) {
+        if (!typed_x(q, r[0])) bad_reader = "typed x()";
+        if (!typed_y(q, r[1])) bad_reader = "typed y()";
+        if constexpr (N == 3)
+          if (!typed_z(q, r[2])) bad_reader = "typed z()";
+      } else if constexpr (N == 6) {
+        if (!typed_xx(q, r[0])) bad_reader = "typed xx()";
+        if (!typed_xy(q, r[1]) || !typed_yx(q, r[1])) bad_reader = "typed xy()/yx()";
+        if (!typed_xz(q, r[2]) || !typed_zx(q, r[2])) bad_reader = "typed xz()/zx()";
+        if (!typed_yy(q, r[3])) bad_reader = "typed yy()";
+        if (!typed_yz(q, r[4]) || !typed_zy(q, r[4])) bad_reader = "typed yz()/zy()";
+        if (!typed_zz(q, r[5])) bad_reader = "typed zz()";
+      } else if constexpr (N == 9) {
+        if (!typed_xx(q, r[0]) || !typed_xy(q, r[1]) || !typed_xz(q, r[2])) bad_reader = "typed xx()/xy()/xz()";
+        if (!typed_yx(q, r[3]) || !typed_yy(q, r[4]) || !typed_yz(q, r[5])) bad_reader = "typed yx()/yy()/yz()";
+        if (!typed_zx(q, r[6]) || !typed_zy(q, r[7]) || !typed_zz(q, r[8])) bad_reader = "typed zx()/zy()/zz()";
+      }
+    }
+    if (bad_reader) {
+      ok = false;
+      vf::viol("accessor|" + tag + "|" + bad_reader, "{\"accessor\":" + vf::jstr(bad_reader) + ",\"after\":" + vf::jstr(after) + ",\"object\":" + vf::comps_hex(q) + "}");
+      return false;
+    }
     if (!ok) {
       std::string rs = "[";
       for (int i = 0; i < N; i++) rs += (i ? "," : "") + vf::jstr(vf::hex(r[i]));
